@@ -122,6 +122,48 @@ Definition sp_inc (which : N) (d : depths) : option depths :=
             end in
   if (d_struct d' <=? 32) && (d_array d' <=? 32) && (d_struct d' + d_array d' + d_variant d' <=? 64) then Some d' else None.
 
+Fixpoint sp_arr_loop (elem : N -> option N) (b : bytes) (al endp : N) (k : nat) (q : N) {struct k} : option N :=
+  if q =? endp then Some q
+  else match k with
+       | O => None
+       | S k' =>
+           match sp_align b q al with
+           | Some q1 => match elem q1 with
+                        | Some q2 => if q2 <=? endp then sp_arr_loop elem b al endp k' q2 else None
+                        | None => None
+                        end
+           | None => None
+           end
+       end.
+Fixpoint sp_dict_loop (kd vd : N -> option N) (b : bytes) (endp : N) (k : nat) (q : N) {struct k} : option N :=
+  if q =? endp then Some q
+  else match k with
+       | O => None
+       | S k' =>
+           match sp_align b q 8 with
+           | Some q1 =>
+               match kd q1 with
+               | Some q2 =>
+                   if q2 <=? endp then
+                     match vd q2 with
+                     | Some q3 => if q3 <=? endp then sp_dict_loop kd vd b endp k' q3 else None
+                     | None => None
+                     end
+                   else None
+               | None => None
+               end
+           | None => None
+           end
+       end.
+Section SpStructGo.
+  Variable fld : sig -> N -> option N.
+  Fixpoint sp_struct_go (l : list sig) (q : N) {struct l} : option N :=
+    match l with
+    | [] => Some q
+    | f :: r => match fld f q with Some q' => sp_struct_go r q' | None => None end
+    end.
+End SpStructGo.
+
 Fixpoint sp_value (s : sig) (d : depths) (e : endian) (b : bytes) (pos : N) {struct s} : option N :=
   match s with
   | SU8 => option_map snd (sp_take b pos 1)
@@ -139,22 +181,7 @@ Fixpoint sp_value (s : sig) (d : depths) (e : endian) (b : bytes) (pos : N) {str
       match sp_inc 1 d, sp_u32 e b pos with
       | Some d', Some (n, p) =>
           match sp_align b p (align_dbus c) with
-          | Some start =>
-              let endp := start + n in
-              (fix loop (k : nat) (q : N) {struct k} : option N :=
-                 if q =? endp then Some q
-                 else match k with
-                      | O => None
-                      | S k' =>
-                          match sp_align b q (align_dbus c) with
-                          | Some q1 =>
-                              match sp_value c d' e b q1 with
-                              | Some q2 => if q2 <=? endp then loop k' q2 else None
-                              | None => None
-                              end
-                          | None => None
-                          end
-                      end) (S (length b)) start
+          | Some start => sp_arr_loop (sp_value c d' e b) b (align_dbus c) (start + n) (S (length b)) start
           | None => None
           end
       | _, _ => None
@@ -163,40 +190,14 @@ Fixpoint sp_value (s : sig) (d : depths) (e : endian) (b : bytes) (pos : N) {str
       match sp_inc 1 d, sp_u32 e b pos with
       | Some d', Some (n, p) =>
           match sp_align b p 8 with
-          | Some start =>
-              let endp := start + n in
-              (fix loop (k : nat) (q : N) {struct k} : option N :=
-                 if q =? endp then Some q
-                 else match k with
-                      | O => None
-                      | S k' =>
-                          match sp_align b q 8 with
-                          | Some q1 =>
-                              match sp_value kt d' e b q1 with
-                              | Some q2 =>
-                                  if q2 <=? endp then
-                                    match sp_value vt d' e b q2 with
-                                    | Some q3 => if q3 <=? endp then loop k' q3 else None
-                                    | None => None
-                                    end
-                                  else None
-                              | None => None
-                              end
-                          | None => None
-                          end
-                      end) (S (length b)) start
+          | Some start => sp_dict_loop (sp_value kt d' e b) (sp_value vt d' e b) b (start + n) (S (length b)) start
           | None => None
           end
       | _, _ => None
       end
   | SStruct fs =>
       match sp_align b pos 8, sp_inc 0 d with
-      | Some p, Some d' =>
-          (fix go (l : list sig) (q : N) {struct l} : option N :=
-             match l with
-             | [] => Some q
-             | f :: r => match sp_value f d' e b q with Some q' => go r q' | None => None end
-             end) fs p
+      | Some p, Some d' => sp_struct_go (fun f q => sp_value f d' e b q) fs p
       | _, _ => None
       end
   | SVariant | SFd | SUnit | SMaybe _ => None
